@@ -232,6 +232,8 @@ def r1_search_parameters(run, w):
       tfn = w.fn_of(target)
       tva = tfn.node.args.vararg.arg if tfn.node.args.vararg else None
       cc = [x for (n, x, nm) in tfn.calls() if nm == "self." + N_BF]
+      if not cc and len([x for (n, x, nm) in tfn.calls() if nm == "self." + N_BI]) == 2:
+        continue        # lower/upper-bound form of the equality search: decided by C14-R3
       c = _inl(H.Flow(tfn), _single(cc, "%s: _bisect_find call" % target.qualname))
       va = tva
     else:
@@ -413,6 +415,102 @@ def r2_index_guard(run, w):
 
 # --------------------------------------------------------------------------------------- R3
 
+def _find_eq_two_bisections(run, R3, w, fn, flow, va):
+  """The equality search written with two bisections: lo = lower bound (bisect_left with the
+  -inf sentinel), hi = upper bound (bisect_right with the +inf sentinel) of the probe values;
+  the rows equal to the probe are [lo, hi). find.eq must yield the FIRST of them -- the record at
+  lo, as find.ge and a linear scan do -- when the range is non-empty, and the empty record
+  otherwise. Returns False when the function is not of this form."""
+  mod = w.repo.module("records")
+  bi = w.fn("records.RecordSet._bisect_index")
+  n_bi, n_at = bi.fi.name, H.aname(w, "records.RecordSet._at")
+  ips = bi.fi.params()
+  lo_t = hi_t = None
+  for (n, c, nm) in fn.calls():
+    if nm != "self." + n_bi:
+      continue
+    b = H.bind_args(c, bi.fi)
+    f = _bisect_name(mod, b.get(ips[1]))
+    sent = _sentinel_value(mod, b.get(ips[2])) if b.get(ips[2]) is not None else None
+    vals = b.get(ips[3])
+    if vals is None or text(vals) != va or f is None or sent is None:
+      raise AnalysisError("_find_eq: cannot read the bisection %s" % short(c))
+    # with an infinite sentinel no stored key equals the probe: -inf gives the lower bound,
+    # +inf the upper bound, whichever bisect function is used
+    if sent == NEG:
+      lo_t = text(_inl(flow, c))
+    else:
+      hi_t = text(_inl(flow, c))
+  if lo_t is None or hi_t is None:
+    return False
+
+  def range_nonempty(atoms):
+    """True / False when the atoms say lo < hi / lo >= hi, else None."""
+    out = set()
+    for (t, p) in atoms:
+      t = _inl(flow, t)
+      if isinstance(t, ast.Compare) and len(t.ops) == 1:
+        l, r, op = text(t.left), text(t.comparators[0]), type(t.ops[0])
+        if (l, r) == (lo_t, hi_t) and op in (ast.Lt, ast.GtE):
+          out.add(p if op is ast.Lt else not p)
+        elif (l, r) == (hi_t, lo_t) and op in (ast.Gt, ast.LtE):
+          out.add(p if op is ast.Gt else not p)
+        elif (l, r) == (lo_t, hi_t) and op is ast.Eq:
+          # lo <= hi always: equal means empty
+          out.add(not p)
+    return out.pop() if len(out) == 1 else None
+
+  n_first = n_empty = 0
+  ok = True
+  wit = None
+  for case in H.return_cases(fn.node):
+    if case.value is None:
+      raise AnalysisError("_find_eq: returns nothing on some path")
+    rn = [m.id for m in fn.cfg.nodes if m.stmt is case.stmt][0]
+    v = H.resolve(flow, case.value, rn)
+    if isinstance(v, ast.Call) and text(v.func) == "self._table.Record" and v.args and \
+        _const_int(v.args[0]) == 0:
+      ne = range_nonempty(case.atoms)
+      if ne is not False:
+        raise AnalysisError("_find_eq: cannot read when the empty record is returned")
+      n_empty += 1
+      continue
+    if not (isinstance(v, ast.Call) and text(v.func) == "self." + n_at and len(v.args) == 1):
+      raise AnalysisError("_find_eq: cannot read the result %s" % short(v))
+    for vc in H.value_cases(fn, flow, v.args[0], flow.node_of(v)):
+      ne = range_nonempty(list(case.atoms) + list(vc.atoms))
+      it = text(_inl(flow, vc.value))
+      if ne is True:
+        if it == lo_t:
+          n_first += 1
+        elif it in ("%s - 1" % hi_t, "(%s) - 1" % hi_t, hi_t):
+          ok = False
+          wit = "a match yields the record at %s, not the first of the equal rows" % short(vc.value)
+        else:
+          raise AnalysisError("_find_eq: cannot read the position %s" % short(vc.value))
+      elif ne is False:
+        c_ = _const_int(vc.value)
+        if c_ is not None and c_ < 0:
+          n_empty += 1          # _at yields the empty record for a negative position
+        elif it == lo_t or it == hi_t:
+          # lo == hi: the row there (if any) is strictly after the probe -- not an equal match
+          ok = False
+          wit = "without a match the record at %s is returned" % short(vc.value)
+        else:
+          raise AnalysisError("_find_eq: cannot read the position %s" % short(vc.value))
+      else:
+        raise AnalysisError("_find_eq: cannot read under which condition %s is used"
+                            % short(vc.value))
+  run.ob(R3, fn.qualname, "lo, hi = lower / upper bound of the probe; return self._at(lo) if "
+         "lo < hi else <empty record>", "the equal rows are [lo, hi): find.eq yields the first "
+         "of them, as find.ge and a linear scan do", ok and n_first >= 1, witness=wit,
+         fi=fn.fi)
+  run.ob(R3, fn.qualname, "no equal row -> empty record", "when no row equals the probe the "
+         "empty record is returned (not the next greater row)", ok and n_empty >= 1,
+         witness=wit, fi=fn.fi)
+  return True
+
+
 def r3_find_eq(run, w):
   R3 = run.rule("C14-R3", "_find_eq returns the empty record when the found row's key is "
                 "strictly greater than the probe", floor=2)
@@ -422,6 +520,9 @@ def r3_find_eq(run, w):
   va = fn.node.args.vararg.arg if fn.node.args.vararg else None
   found = [(n, c) for (n, c, nm) in fn.calls()
            if nm == "self." + H.aname(w, "records.RecordSet._bisect_find")]
+  if not found:
+    if _find_eq_two_bisections(run, R3, w, fn, flow, va):
+      return
   (fdn, fdc) = _single(found, "_find_eq: _bisect_find call")
   K = "self._get_sort_key()"
   ftext = text(_inl(flow, fdc))
@@ -597,6 +698,20 @@ VARIANTS = [
   ("find-eq-comparison-flipped", RC,
    "      if key(found._row_id, values) < key(found._row_id):",
    "      if key(found._row_id) < key(found._row_id, values):", "C14-R3"),
+  ("find-eq-returns-last-of-equal-run", RC,
+   """    found = self._bisect_find(bisect_left, 0, _min_row_id, values)
+    if found:
+      # 'found' means that we found a row that's greater-than-or-equal-to the values we are
+      # looking for. To check if the row is actually "equal", it remains to check if it is stictly
+      # greater than the passed-in values.
+      key = self._get_sort_key()
+      if key(found._row_id, values) < key(found._row_id):
+        return self._table.Record(0, self._source_relation)
+    return found
+""", """    lo = self._bisect_index(bisect_left, _min_row_id, values)
+    hi = self._bisect_index(bisect_right, _max_row_id, values)
+    return self._at(hi - 1 if lo < hi else -1)
+""", "C14-R3"),
   ("find-eq-no-check", RC,
    """      key = self._get_sort_key()
       if key(found._row_id, values) < key(found._row_id):
